@@ -74,13 +74,27 @@ def code_section(rng, nblocks, tagbase, profile_blocks, dup_prob=0.25):
     return items
 
 
-def make_doc(seed, ncontracts=2, nblocks=4, with_no_asm=True, version="0.8.15+commit.e14f2714.Linux.g++"):
+RELATED = ["Math", "SafeMath", "MathX", "ERC20", "BurnableERC20", "ERC20Burnable"]
+
+
+def contract_name(c, naming):
+    """`related`: short names that are suffixes / prefixes of one another (a selection must be exact);
+    `dup`: the same short name in different source files (block names then coincide across contracts)"""
+    if naming == "related":
+        n = RELATED[c % len(RELATED)]
+        return "contracts/%s.sol:%s" % (n, n)
+    if naming == "dup":
+        return "%s.sol:Token" % ("lib/a", "b", "c/d")[c % 3]
+    return "contracts/C%d.sol:C%d" % (c, c)
+
+
+def make_doc(seed, ncontracts=2, nblocks=4, with_no_asm=True, version="0.8.15+commit.e14f2714.Linux.g++", naming="plain"):
     rng = random.Random(seed)
     pool = gen.blocks(seed * 13 + 1, ncontracts * nblocks * 4 + 8, split_prob=0.15, terminal_prob=0.3)
     pool = [b for b in pool if "PUSHLIB" not in b or rng.random() < 0.7]
     contracts = {}
     for c in range(ncontracts):
-        name = "contracts/C%d.sol:C%d" % (c, c)
+        name = contract_name(c, naming)
         data = {}
         sub = {".auxdata": "a264" + "%060x" % rng.getrandbits(240), ".code": code_section(rng, nblocks, 100, pool)}
         if rng.random() < 0.5:
@@ -135,6 +149,17 @@ def handcrafted():
            [loc("PUSH", "0"), loc("PUSH", "0"), loc("PUSH", "4"), nl("CALLDATACOPY")] + fold(90) + [nl("GAS"), loc("POP")] + fold(130) + \
            [nl("PUSH [tag]", "2"), nl("JUMP", None, jumpType="[in]"), nl("tag", "2"), nl("JUMPDEST")] + fold(170) + [nl("STOP")]
     docs_.append(("handnoloc.json_solc", {"contracts": {"n.sol:N": {"asm": {".code": code, ".data": {"0": {".auxdata": "a3", ".code": [dict(i) for i in code]}}}}},
+                                          "version": "0.8.15+commit.e14f2714"}))
+    # a pseudo-push in a sub-block that the optimizer replaces, followed by a split instruction and a last sub-block that it keeps
+    # (and the other way round): what is restored after rebuilding must not depend on which sub-block was replaced last
+    code = []
+    for k, (name, val) in enumerate(kinds):
+        code += [it("tag", str(10 + 2 * k)), it("JUMPDEST"), it("PUSH", "4"), it("PUSH", "0"), it("ADD"), it(name, val), it("GAS"), it("DELEGATECALL"),
+                 it("ISZERO"), it("PUSH [tag]", str(10 + 2 * k)), it("JUMPI"),
+                 it("tag", str(11 + 2 * k)), it("JUMPDEST"), it("DUP1"), it(name, val), it("GAS"), it("PUSH", "4"), it("PUSH", "0"), it("ADD"), it("ADD"),
+                 it("PUSH [tag]", str(11 + 2 * k)), it("JUMPI")]
+    code += [it("STOP")]
+    docs_.append(("handsplit.json_solc", {"contracts": {"s.sol:S": {"asm": {".code": code, ".data": {"0": {".auxdata": "a4", ".code": [dict(i) for i in code]}}}}},
                                           "version": "0.8.15+commit.e14f2714"}))
     return docs_
 
